@@ -25,7 +25,7 @@ static unsigned char held[MAXN + 1];
 
 static int cmp(const void *a, const void *b, void *p)
 {
-    (void)p;
+    e_check_priv(p);
     return ((const struct el *)a)->key - ((const struct el *)b)->key;
 }
 static int id_of_el(const void *e)
@@ -46,8 +46,8 @@ static struct cstl_bintree *BT(void) { return &T[cur].t; }
 
 static void tree_init(struct cstl_rbtree *t)
 {
-    if (RB) cstl_rbtree_init(t, cmp, NULL, offsetof(struct el, n));
-    else { memset(t, 0, sizeof *t); cstl_bintree_init(&t->t, cmp, NULL, offsetof(struct el, n.n)); }
+    if (RB) cstl_rbtree_init(t, cmp, E_PRIV, offsetof(struct el, n));
+    else { memset(t, 0, sizeof *t); cstl_bintree_init(&t->t, cmp, E_PRIV, offsetof(struct el, n.n)); }
 }
 
 static void drv_setup(int argc, char **argv)
@@ -81,7 +81,7 @@ static void drv_reset(void)
 static int cb_count, cb_stop;
 static int visit_cb(const void *e, cstl_bintree_visit_order_t order, void *p)
 {
-    (void)p;
+    e_check_priv(p);
     cb_count++;
     ev_add("[%d,%d]", id_of_el(e), (int)order);
     return (cb_stop && cb_count == cb_stop) ? 100 + cb_stop : 0;
@@ -90,7 +90,7 @@ static int clear_poison;
 static void clear_cb(void *e, void *p)
 {
     int id = id_of_el(e);
-    (void)p;
+    e_check_priv(p);
     cb_count++;
     ev_add("%d", id);
     if (id > 0) {
@@ -134,14 +134,14 @@ static void drv_apply(const vop_t *op, jb_t *res)
     case 3: {
         int r;
         cb_count = 0; cb_stop = op->a[1];
-        r = RB ? cstl_rbtree_foreach(&T[cur], visit_cb, NULL, op->a[0] ? CSTL_BINTREE_FOREACH_DIR_REV : CSTL_BINTREE_FOREACH_DIR_FWD)
-               : cstl_bintree_foreach(BT(), visit_cb, NULL, op->a[0] ? CSTL_BINTREE_FOREACH_DIR_REV : CSTL_BINTREE_FOREACH_DIR_FWD);
+        r = RB ? cstl_rbtree_foreach(&T[cur], visit_cb, E_PRIV, op->a[0] ? CSTL_BINTREE_FOREACH_DIR_REV : CSTL_BINTREE_FOREACH_DIR_FWD)
+               : cstl_bintree_foreach(BT(), visit_cb, E_PRIV, op->a[0] ? CSTL_BINTREE_FOREACH_DIR_REV : CSTL_BINTREE_FOREACH_DIR_FWD);
         jb_printf(res, ",\"ret\":%d", r);
         break;
     }
     case 4:
         cb_count = 0; clear_poison = op->a[0];
-        if (RB) cstl_rbtree_clear(&T[cur], clear_cb, NULL); else cstl_bintree_clear(BT(), clear_cb, NULL);
+        if (RB) cstl_rbtree_clear(&T[cur], clear_cb, E_PRIV); else cstl_bintree_clear(BT(), clear_cb, E_PRIV);
         jb_puts(res, ",\"ret\":0");
         break;
     case 5: {
